@@ -16,12 +16,12 @@ import math
 import pfimport  # noqa: F401
 from pfimport import exc_enum
 from pipefunc import Pipeline, PipeFunc
-from pipefunc.sweep import MultiSweep, Sweep, count_sweep, generate_sweep
+from pipefunc.sweep import MultiSweep, Sweep, count_sweep, generate_sweep, set_cache_for_sweep
 
 import framework
 
 PID = "C17"
-PROPS = ["PfModel.Props.C17", "PfModel.Props.C17Ext"]
+PROPS = ["PfModel.Props.C17", "PfModel.Props.C17Ext", "PfModel.Props.C17Count", "PfModel.Props.C17Order"]
 DRIVER = "C17"
 RULE = ("sweeps over <= 4 dimensions (names a..h) with value lists of length 0..3 drawn with repeats from small ints and strings; dims is "
         "None or an ordered partition of the names into groups (names as str or tuples; zipped groups made equally long 85% of "
@@ -31,13 +31,14 @@ RULE = ("sweeps over <= 4 dimensions (names a..h) with value lists of length 0..
         "operands, repeated constant names); non-trivial = the operation sees at least one dimension with >= 2 values or a "
         "zipped group; distinct by the case's JSON")
 ASSUMPTIONS = ["derivers and exclude predicates are total functions of the combination taken from a fixed menu (the theorems hold for arbitrary ones)",
-               "values are hashable ints / strings / None / tagged tuples; unhashable values are not modelled",
+               "values are ints / strings / None / tagged tuples, and (filtered_sweep stream only) two-element Python lists as the unhashable values",
                "dictionaries are compared as mappings (key order inside one combination is not observed)",
                "count_sweep: func_dependencies / root_args come from the pipeline model of C02 (PF.Pipe.funcDeps / rootArgs) on the model side "
-               "and are compared with the implementation's and with a reachability computation of the harness; generated pipelines have "
-               "single-output functions without defaults or bound values",
-               "count_sweep(use_pandas=True) is compared with the default path only where a DataFrame round-trips the values (ints, >= 1 combination); "
-               "a scalar key of a single root argument is read as a 1-tuple"]
+               "and are compared with the implementation's and with the reachability specification PF.Sweep.depsSpec (Lean, C17_deps_spec); generated "
+               "pipelines have single-output functions without defaults or bound values, producers before consumers",
+               "count_sweep(use_pandas=True) is compared with the Lean model countPandas (KeyError for a sweep without combinations, None rows dropped, "
+               "scalar keys for a single root argument) on every count case; ints that pandas turned into floats are read back as ints",
+               "set_cache_for_sweep is observed through the `cache` attribute of every PipeFunc of a fresh pipeline"]
 
 NAMES = list("abcdefgh")
 
@@ -45,8 +46,18 @@ NAMES = list("abcdefgh")
 # ------------------------------------------------------------------------------------------------ values and the menu
 def to_py(v):
     if isinstance(v, dict):
+        if v["t"] == "list":                                    # the unhashable value: a Python list
+            return [to_py(v["a"]), to_py(v["b"])]
         return (v["t"], to_py(v["a"]), to_py(v["b"]))
     return v
+
+
+def hashable(v):
+    try:
+        hash(v)
+    except TypeError:
+        return False
+    return True
 
 
 def to_js(v):
@@ -54,6 +65,8 @@ def to_js(v):
         return {"t": v[0], "a": to_js(v[1]), "b": to_js(v[2])}
     if v is None or (isinstance(v, (int, str)) and not isinstance(v, bool)):
         return v
+    if isinstance(v, list) and len(v) == 2:
+        return {"t": "list", "a": to_js(v[0]), "b": to_js(v[1])}
     return {"t": "unrepresentable", "a": repr(v), "b": None}
 
 
@@ -392,6 +405,8 @@ def gen_pipeline(rng, roots):
         if i > 0 and rng.random() < 0.7 and f"o{i-1}" not in params:
             params[0] = f"o{i-1}"
         params = list(dict.fromkeys(params))
+        if i == 0 and rng.random() < 0.04:
+            params = []                                         # a function without parameters: no root arguments at all
         funcs.append([f"o{i}", params]); avail.append(f"o{i}")
     return funcs, funcs[-1][0] if rng.random() < 0.8 else rng.choice(funcs)[0]
 
@@ -433,14 +448,25 @@ def make_case(rng):
             j["constants"] = None; j["exclude"] = None
         avail = list(dict.fromkeys(produced_keys(j)))
         ks = rng.sample(avail, rng.randint(1, len(avail)))
-        if rng.random() < 0.06:
-            ks = rng.choice([[], ks + ["zz"], ks + ks[:1], ["zz"]])
-        return {"m": "filtered", "a": {"s": j, "keys": ks}}
+        if rng.random() < 0.08:
+            ks = rng.choice([[], [], ks + ["zz"], ks + ks[:1], ["zz"]])
+        case = {"m": "filtered", "a": {"s": j, "keys": ks}}
+        if rng.random() < 0.14 and j["items"]:
+            # unhashable values (Python lists) in one or two dimensions, with repeats; without derivers only once DF-C17-03 is repaired
+            lists = [{"t": "list", "a": x, "b": y} for x, y in [(0, None), (0, None), (1, 0), ("x", None)]]
+            for col in rng.sample(j["items"], min(len(j["items"]), rng.randint(1, 2))):
+                col[1][:] = [rng.choice(lists) if rng.random() < 0.8 else v for v in col[1]]
+            case["unhashable"] = True
+        return case
     # count
     j = gen_sweep(rng, pick_keys(rng, NAMES[:4], 1, 4), rich=0.3)
     roots = list(dict.fromkeys(produced_keys(j)))
     funcs, out = gen_pipeline(rng, roots + (["zz"] if rng.random() < 0.05 else []))
-    return {"m": "count", "a": {"s": j, "funcs": funcs, "output": out}}
+    a = {"s": j, "funcs": funcs, "output": out}
+    if rng.random() < 0.8:                                      # set_cache_for_sweep: min_executions and the flags before the call
+        a["min"] = rng.choice([2, 2, 2, 1, 3, 3, 4, 0, -1, 6])
+        a["cache"] = [[o, rng.random() < 0.5] for o, _ in funcs]
+    return {"m": "count", "a": a}
 
 
 # ------------------------------------------------------------------------------------------------ the implementation
@@ -464,29 +490,9 @@ def make_pipeline(funcs):
     fs = []
     for out, params in funcs:
         ns = {}
-        exec(f"def fn({', '.join(params)}):\n    return ({', '.join(params)},)\n", ns)  # noqa: S102
+        exec(f"def fn({', '.join(params)}):\n    return ({', '.join(params)}{',' if params else ''})\n", ns)  # noqa: S102
         fs.append(PipeFunc(ns["fn"], output_name=out))
     return Pipeline(fs)
-
-
-def harness_deps(funcs, output):
-    """strict function ancestors of `output` and their root arguments, by plain reachability"""
-    by = dict((o, p) for o, p in funcs)
-
-    def roots(o):
-        r = []
-        for p in by[o]:
-            r += roots(p) if p in by else [p]
-        return sorted(set(r))
-
-    def anc(o):
-        a = []
-        for p in by[o]:
-            if p in by:
-                a += [p] + anc(p)
-        return sorted(set(a))
-
-    return {o: roots(o) for o in anc(output)}
 
 
 def run_impl(case):
@@ -549,6 +555,14 @@ def run_impl(case):
         f = attempt(lambda: s.filtered_sweep(ks))
         req = {"m": "filtered", "a": {"s": sweep_req(a["s"]), "keys": ks}}
         applies = filtered_clause_applies(a["s"], ks)
+        if applies and a["s"].get("derivers") is not None and any(not hashable(c[k]) for c in ref_list(a["s"]) for k in ks):
+            # documented refusal (`sweep.py:168-172`): TypeError for unhashable projected values with derivers; compared with `filteredH`
+            applies = False
+            STATS["filtered:unhashable:derivers-refusal"] += 1
+        if not ks:
+            STATS["filtered:nokeys"] += 1
+        if case.get("unhashable"):
+            STATS["filtered:unhashable"] += 1
         if "err" in f:
             if applies:
                 bad.append(f"filtered_sweep raised {f['err']}")
@@ -571,61 +585,123 @@ def run_impl(case):
     if m == "count":
         s = mk_sweep(a["s"])
         pipe = make_pipeline(a["funcs"])
-        case_ = case
-        deps = attempt(lambda: [[o, list(pipe.root_args(o))] for o in pipe.func_dependencies(a["output"])])
+        out = a["output"]
+        deps = attempt(lambda: [[o, list(pipe.root_args(o))] for o in pipe.func_dependencies(out)])
         if "err" in deps:
             return deps, ["func_dependencies / root_args raised " + deps["err"]], None
-        mine = harness_deps(a["funcs"], a["output"])
-        if {o: sorted(r) for o, r in deps["ok"]} != mine:
-            bad.append("func_dependencies / root_args differ from reachability in the generated pipeline")
-        cnt = attempt(lambda: count_sweep(a["output"], s, pipe))
-        cnt_l = attempt(lambda: count_sweep(a["output"], s.list(), pipe))
-        req = {"m": "count_pipe", "a": {"s": sweep_req(a["s"]), "funcs": a["funcs"], "output": a["output"]}}
+        depl = deps["ok"]
+        obs = {"deps": sorted([o, list(r)] for o, r in depl)}
+        req = {"m": "count_pipe", "a": {"s": sweep_req(a["s"]), "funcs": a["funcs"], "output": out}}
+        if "min" in a:
+            req["a"]["min"], req["a"]["cache"] = a["min"], a["cache"]
+        lst = attempt(lambda: s.list())
+        cnt = attempt(lambda: count_sweep(out, s, pipe))
+        cnt_l = attempt(lambda: count_sweep(out, s.list(), pipe))
         if cnt_l != cnt and not ("err" in cnt and "err" in cnt_l):
             bad.append("count_sweep(Sweep) differs from count_sweep(sweep.list())")
+        have_all = "ok" in lst and all(k in c for c in lst["ok"] for _, r in depl for k in r)
+        want = {}
         if "err" in cnt:
-            lst = attempt(lambda: s.list())
-            if "ok" in lst and all(k in c for c in lst["ok"] for _, r in deps["ok"] for k in r):
+            if have_all:
                 bad.append(f"count_sweep raised {cnt['err']}")
-            return dict(cnt, deps=sorted([o, list(r)] for o, r in deps["ok"])), bad, req
-        lst = s.list()
-        for o, r in deps["ok"]:
-            want = {}
-            for c in lst:
-                key = tuple(c[k] for k in r)
-                want[key] = want.get(key, 0) + 1
-            got = cnt["ok"].get(o)
-            if got is None or sorted(map(repr, got.items())) != sorted(map(repr, want.items())):
-                bad.append(f"count_sweep[{o}] does not count the combinations sharing each root-argument tuple {tuple(r)}")
-        if sorted(cnt["ok"]) != sorted(o for o, _ in deps["ok"]):
-            bad.append("count_sweep reports other dependencies than func_dependencies")
-        bad += count_pandas(case_, s, pipe, lst, deps["ok"], cnt["ok"])
-        canon = sorted([o, sorted(([[to_js(x) for x in key], n] for key, n in d.items()), key=jkey)] for o, d in cnt["ok"].items())
-        return {"ok": canon, "deps": sorted([o, list(r)] for o, r in deps["ok"])}, bad, req
+            obs["err"] = cnt["err"]
+        else:
+            for o, r in depl:
+                w = {}
+                for c in lst["ok"]:
+                    key = tuple(c[k] for k in r)
+                    w[key] = w.get(key, 0) + 1
+                want[o] = w
+                got = cnt["ok"].get(o)
+                if got is None or sorted(map(repr, got.items())) != sorted(map(repr, w.items())):
+                    bad.append(f"count_sweep[{o}] does not count the combinations sharing each root-argument tuple {tuple(r)}")
+                elif sum(got.values()) != len(lst["ok"]):
+                    bad.append(f"the counts of count_sweep[{o}] do not sum to len(sweep)")
+            if sorted(cnt["ok"]) != sorted(o for o, _ in depl):
+                bad.append("count_sweep reports other dependencies than func_dependencies")
+            obs["ok"] = sorted([o, sorted(([[to_js(x) for x in key], n] for key, n in d.items()), key=jkey)] for o, d in cnt["ok"].items())
+        # ---- the pandas path, every case whose root-argument columns pandas can order (`column_orderable`; other columns are
+        #      outside the modelled domain)
+        cols = sorted({k for _, r in depl for k in r})
+        orderable = all(column_orderable([c.get(k) for c in lst.get("ok", []) if c.get(k) is not None]) for k in cols)
+        if not orderable:
+            case["pandas"] = "skip"
+            STATS["count:pandas:skipped-unorderable-column"] += 1
+        else:
+            STATS["count:pandas"] += 1
+            pdr = attempt(lambda: count_sweep(out, s, pipe, use_pandas=True))
+            if "err" in pdr:
+                obs["pandas"] = pdr
+                STATS["count:pandas:err:" + pdr["err"]] += 1
+            else:
+                roots = dict((o, r) for o, r in depl)
+                tables = []
+                for o, d in pdr["ok"].items():
+                    one = len(roots.get(o, ())) == 1
+                    tables.append([o, {"scalar": one, "table": sorted(([[to_js(to_js_num(x)) for x in ((k,) if one else k)], int(n)] for k, n in d.items()), key=jkey)}])
+                obs["pandas"] = {"ok": sorted(tables, key=jkey)}
+                if "ok" in cnt:
+                    for o, w in want.items():
+                        g = pdr["ok"].get(o)
+                        one = len(roots[o]) == 1
+                        canon = None if g is None else sorted(jkey([[to_js(to_js_num(x)) for x in ((k,) if one else k)], int(n)]) for k, n in g.items())
+                        if canon != sorted(jkey([[to_js(x) for x in k], n]) for k, n in w.items()):
+                            if any(x is None for k in w for x in k):
+                                case["pandas"] = "none-in-root-args"        # the shape of DF-C17-02 (known finding); its matcher decides
+                                STATS["count:pandas:none-in-root-args"] += 1
+                            bad.append(f"count_sweep(use_pandas=True)[{o}] does not count the combinations sharing each root-argument tuple (differs from the default path)")
+                            break
+                    else:
+                        STATS["count:pandas:agrees"] += 1
+        # ---- set_cache_for_sweep
+        if "min" in a:
+            STATS["count:setcache"] += 1
+            pipe2 = make_pipeline(a["funcs"])
+            before = dict((o, b) for o, b in a["cache"])
+            for f in pipe2.functions:
+                f.cache = before[f.output_name]
+            arg = lst["ok"] if "ok" in lst else s
+            sc = attempt(lambda: set_cache_for_sweep(out, pipe2, arg, a["min"]))
+            flags = {f.output_name: bool(f.cache) for f in pipe2.functions}
+            if "err" in sc:
+                obs["setcache"] = {"err": sc["err"]}
+                STATS["count:setcache:err:" + sc["err"]] += 1
+                if "ok" in cnt and lst["ok"]:
+                    bad.append(f"set_cache_for_sweep raised {sc['err']} on a sweep with combinations")
+            else:
+                obs["setcache"] = {"ok": sorted([o, b] for o, b in flags.items())}
+                if "ok" in cnt:
+                    exp = dict(before)
+                    exp[out] = False
+                    for o, w in want.items():
+                        exp[o] = max(w.values()) >= a["min"]
+                    STATS["count:setcache:cached=" + str(sum(1 for o in want if exp[o]))] += 1
+                    if flags != exp:
+                        bad.append("set_cache_for_sweep: cache is not enabled for exactly the dependencies with a root-argument tuple shared by "
+                                   f">= min_executions={a['min']} combinations (output off, other functions untouched)")
+        return obs, bad, req
     raise AssertionError(m)
 
 
-def count_pandas(case, s, pipe, lst, deps, default):
-    """`count_sweep(..., use_pandas=True)` against the default path, on the domain where a DataFrame round-trips the values:
-    at least one combination and only ints in the root-argument columns (a single root argument comes back as a scalar key;
-    it is compared as a 1-tuple).  Outside that domain the pandas path deviates (see DF-C17-02 in the report)."""
-    forced = case.get("pandas") == "force"
-    cols = sorted({k for _, r in deps for k in r})
-    if not forced and (not lst or not all(is_int(c.get(k)) for c in lst for k in cols)):
-        return []
-    STATS["count:pandas"] += 1
-    got = attempt(lambda: count_sweep(case["a"]["output"], s, pipe, use_pandas=True))
-    if "err" in got:
-        return [f"count_sweep(use_pandas=True) raised {got['err']} where the default path returns counts"]
-    for o, d in default.items():
-        g = got["ok"].get(o)
-        canon = None if g is None else {tuple(to_js_num(x) for x in (k if isinstance(k, tuple) else (k,))): int(n) for k, n in g.items()}
-        if canon != {tuple(to_js_num(x) for x in k): n for k, n in d.items()}:
-            return [f"count_sweep(use_pandas=True)[{o}] does not count the combinations sharing each root-argument tuple (differs from the default path)"]
-    return []
+def column_orderable(vals):
+    """pandas' groupby sorts the distinct values of every grouped column: ints and strings (also mixed) are fine; tuples only if
+    they are mutually comparable and the column holds nothing else (else `TypeError` from the sort, or pandas-internal fallbacks
+    that are not modelled)"""
+    tuples = [v for v in vals if isinstance(v, tuple)]
+    if not tuples:
+        return True
+    if len(tuples) != len(vals):
+        return False
+    try:
+        sorted(tuples)
+    except TypeError:
+        return False
+    return True
 
 
 def to_js_num(x):
+    if isinstance(x, float) and x.is_integer():
+        return int(x)
     try:
         import numpy as np
         if isinstance(x, np.integer):
@@ -642,7 +718,7 @@ def _df_pandas_none(case, params, impl, model):
     """count_sweep(use_pandas=True) on a sweep whose root-argument columns contain None: pandas' groupby drops those rows
     (dropna=True) and turns the remaining ints into floats.  Matches only the forced corpus case shape, only if the default
     path agrees with the model and only if the pandas counts are exactly the default counts without the tuples that contain None."""
-    if case.get("m") != "count" or case.get("pandas") != "force" or impl != model:
+    if case.get("m") != "count" or case.get("pandas") not in ("force", "none-in-root-args") or impl != model:
         return False
     try:
         s = mk_sweep(case["a"]["s"])
@@ -655,7 +731,8 @@ def _df_pandas_none(case, params, impl, model):
         return False
     for o, d in default.items():
         want = {k: n for k, n in d.items() if None not in k}
-        g = {tuple(to_js_num(x) for x in (k if isinstance(k, tuple) else (k,))): int(n) for k, n in got.get(o, {}).items()}
+        one = len(pipe.root_args(o)) == 1                       # a single grouped column: scalar keys (which may themselves be tuples)
+        g = {tuple(to_js_num(x) for x in ((k,) if one else k)): int(n) for k, n in got.get(o, {}).items()}
         if g != want:
             return False
     return True
@@ -781,13 +858,31 @@ def canon_model(case, r):
     if m in ("product", "filtered"):
         return {"ok": canon_model_obs(r["ok"])} if "ok" in r else {"err": r["err"]}
     if m == "count":
-        if "err" in r:                                           # list() of the sweep raised, or the output is unknown
+        if "err" in r:                                           # the output is unknown
             return r
-        deps = sorted([o, list(a)] for o, a in r["deps"]) if r.get("deps") is not None else None
-        if "err" in r["counts"]:
-            return {"err": r["counts"]["err"], "deps": deps}
-        return {"ok": sorted([o, sorted(([key, n] for key, n in d), key=jkey)] for o, d in dict((o, d) for o, d in r["counts"]["ok"]).items()),
-                "deps": deps}
+        o = {"deps": sorted([x, list(a)] for x, a in r["deps"]) if r.get("deps") is not None else None}
+        if "err" in r["counts"]:                                 # list() of the sweep raised, or a combination lacks a root argument
+            o["err"] = r["counts"]["err"]
+        else:
+            o["ok"] = sorted([x, sorted(([key, n] for key, n in d), key=jkey)] for x, d in dict((x, d) for x, d in r["counts"]["ok"]).items())
+        pd = r.get("pandas")
+        if case.get("pandas") == "skip":
+            pass
+        elif pd is None:
+            o["pandas"] = {"err": r["counts"]["err"]}            # `sweep.list()` raised before anything else
+        elif "err" in pd:
+            o["pandas"] = pd
+        else:
+            o["pandas"] = {"ok": sorted(([x, {"scalar": t["scalar"], "table": sorted(([key, n] for key, n in t["table"]), key=jkey)}] for x, t in pd["ok"]), key=jkey)}
+        if "min" in case["a"]:
+            sc = r.get("setcache")
+            if sc is None:
+                o["setcache"] = {"err": r["counts"]["err"]}
+            elif "err" in sc:
+                o["setcache"] = sc
+            else:
+                o["setcache"] = {"ok": sorted([x, b] for x, b in sc["ok"])}
+        return o
     raise AssertionError(m)
 
 
@@ -846,12 +941,80 @@ CORPUS = [
     {"m": "list", "a": {"items": [["a", [1, 2]], ["b", [3, 4]]], "dims": [["b"], ["a"]]}},                           # tuples: dims order
     {"m": "count", "a": {"s": {"items": [["a", [1, 2]], ["b", [3, 4]], ["x", [5, 6]]]},
                          "funcs": [["c", ["a", "b"]], ["d", ["b", "c", "x"]], ["e", ["c", "d", "x"]]], "output": "e"}},
+    # round 3: set_cache_for_sweep (the example of Props/C17Count.lean), the empty sweep (ValueError from max()), a function without parameters
+    {"m": "count", "a": {"s": {"items": [["a", [1, 1, 2]], ["b", [3, 4, 3]]], "dims": [["a", "b"]]},
+                         "funcs": [["c", ["a"]], ["d", ["c", "b"]], ["e", ["d", "c"]]], "output": "e", "min": 2,
+                         "cache": [["c", False], ["d", True], ["e", True]]}},
+    {"m": "count", "a": {"s": {"items": [["a", []], ["b", [3]]]}, "funcs": [["c", ["a"]], ["d", ["c", "b"]]], "output": "d", "min": 2,
+                         "cache": [["c", True], ["d", True]]}},
+    {"m": "count", "a": {"s": {"items": [["a", [1, 2]]]}, "funcs": [["z", []], ["y", ["z", "a"]], ["w", ["y"]]], "output": "w", "min": 2,
+                         "cache": [["z", False], ["y", False], ["w", True]]}},
+    # filtered_sweep([]) in both branches (C17_filtered_nokeys); unhashable values with derivers (TypeError, C17_filtered_hashable)
+    {"m": "filtered", "a": {"s": {"items": [["a", [1, 2]]], "derivers": [["d", {"f": "mul10", "a": ["a"]}]]}, "keys": []}},
+    {"m": "filtered", "a": {"s": {"items": [["a", [1, 2]]]}, "keys": []}},
+    {"m": "filtered", "unhashable": True, "a": {"s": {"items": [["a", [{"t": "list", "a": 1, "b": None}, {"t": "list", "a": 1, "b": None}]], ["b", [3, 4]]],
+                                                      "derivers": [["d", {"f": "const", "a": [1]}]]}, "keys": ["a"]}},
+    {"m": "filtered", "unhashable": True, "a": {"s": {"items": [["a", [{"t": "list", "a": 1, "b": None}, {"t": "list", "a": 1, "b": None}]], ["b", [3, 4]]],
+                                                      "derivers": [["d", {"f": "const", "a": [1]}]]}, "keys": ["b", "d"]}},
 ]
+
+# DF-C17-03 (repaired): unhashable values in the branch without derivers kept duplicate projections.  Run once the repair is registered.
+UNHASHABLE_PLAIN_CASES = [
+    {"m": "filtered", "unhashable": True, "a": {"s": {"items": [["a", [{"t": "list", "a": 1, "b": None}, {"t": "list", "a": 1, "b": None}]], ["b", [3, 4]]]},
+                                                "keys": ["a"]}},
+    {"m": "filtered", "unhashable": True, "a": {"s": {"items": [["a", [{"t": "list", "a": 1, "b": None}, {"t": "list", "a": 1, "b": None}, 0]], ["b", [3, 3, 4]]],
+                                                      "dims": [["a", "b"]]}, "keys": ["a", "b"]}},
+]
+
+
+def _lists(x):
+    return [sorted(c.items()) for c in x]
+
+
+# `decide` witnesses of the Props modules replayed on the implementation: (theorem, what the real code must return = the literal of the theorem)
+WITNESSES = [
+    ("C17_product_order_witness",
+     lambda: _lists(Sweep({"a": [1, 2], "b": [3, 4]}, dims=["b", "a"]).product(Sweep({"c": [5], "d": [6]}, dims=[("c", "d")])).list()),
+     [sorted(dict(b=b, a=a_, c=5, d=6).items()) for b in (3, 4) for a_ in (1, 2)]),
+    ("C17_product_order_witness (the receiver alone, item order)",
+     lambda: _lists(Sweep({"a": [1, 2], "b": [3, 4]}, dims=["b", "a"]).list()),
+     [sorted(dict(a=a_, b=b).items()) for a_ in (1, 2) for b in (3, 4)]),
+    ("C17_filtered_order_witness",
+     lambda: (_lists(Sweep({"a": [1, 2], "b": [3, 4]}, dims=[("b",), ("a",)]).list()),
+              _lists(Sweep({"a": [1, 2], "b": [3, 4]}, dims=[("b",), ("a",)]).filtered_sweep(["a", "b"]).list())),
+     ([sorted(dict(a=a_, b=b).items()) for b in (3, 4) for a_ in (1, 2)], [sorted(dict(a=a_, b=b).items()) for a_ in (1, 2) for b in (3, 4)])),
+    ("C17_len_unequal_witness",
+     lambda: (attempt(lambda: Sweep({"a": [1, 2], "b": [3]}, dims=[("a", "b")]).list()), len(Sweep({"a": [1, 2], "b": [3]}, dims=[("a", "b")]))),
+     ({"err": "ValueError"}, 2)),
+    ("C17_filtered_nokeys_witness",
+     lambda: (len(Sweep({"a": [1, 2]}, derivers={"d": lambda c: c["a"]}).list()), Sweep({"a": [1, 2]}, derivers={"d": lambda c: c["a"]}).filtered_sweep([]).list()),
+     (2, [])),
+    ("C17_count_pandas_none_witness",
+     lambda: (count_sweep("c", [{"a": 1}, {"a": None}, {"a": 1}], make_pipeline([["b", ["a"]], ["c", ["b"]]])),
+              {to_js_num(k): int(n) for k, n in count_sweep("c", [{"a": 1}, {"a": None}, {"a": 1}], make_pipeline([["b", ["a"]], ["c", ["b"]]]), use_pandas=True)["b"].items()}),
+     ({"b": {(1,): 2, (None,): 1}}, {1: 2})),
+]
+
+
+def check_witnesses(ctx):
+    for name, fn, want in WITNESSES:
+        got = attempt(fn)
+        ctx.count("witness-replayed")
+        if got != {"ok": want}:
+            ctx.violation({"m": "witness", "a": name}, f"the implementation no longer shows the behaviour of the witness theorem {name}",
+                          found_input=False, item=f"theorem:{name.split()[0]}", impl=repr(got), model=repr(want))
+
+
+
+REPAIRED = {"DF-C17-03": False}      # set in run(): the repair is registered in known_findings.json
 
 
 def check_cases(ctx, cases):
     reqs, impls = [], []
     for case in cases:
+        if case.get("unhashable") and case["a"]["s"].get("derivers") is None and not REPAIRED["DF-C17-03"]:
+            ctx.skip("unhashable values without derivers: DF-C17-03 not registered as repaired")
+            continue
         try:
             o, bad, req = run_impl(case)
         except Exception as e:  # noqa: BLE001
@@ -880,6 +1043,32 @@ def check_cases(ctx, cases):
                     ctx.violation(case, "model: generate differs from specList on a well-formed sweep", found_input=False,
                                   item="theorem:C17_list", model=model)
                 del spec
+        if case["m"] == "count" and "err" not in r:
+            # the reachability specification (Lean `depsSpec`, `C17_deps_spec`) against the model of func_dependencies / root_args
+            # (`countDeps`, `C17_count_deps_reach`) and against the implementation's answers, as dictionaries
+            spec = None if r.get("spec") is None else sorted([x, sorted(a)] for x, a in r["spec"])
+            mdeps = None if r.get("deps") is None else sorted([x, sorted(a)] for x, a in r["deps"])
+            ctx.count("theorem:C17_deps_spec:covered" if r.get("ordered") else "theorem:C17_deps_spec:not-ordered")
+            if spec != mdeps:
+                ctx.violation(case, "model: countDeps (funcDeps / rootArgs) differs from the reachability specification depsSpec",
+                              found_input=False, item="theorem:C17_deps_spec", model=model)
+            if spec != sorted([x, sorted(a)] for x, a in o["deps"]):
+                bad.insert(0, "func_dependencies / root_args differ from reachability in the generated pipeline (strict ancestors, root names below each)")
+            if r.get("sums") is not None:
+                ctx.count("theorem:C17_count_sum:covered")
+                if any(n != r["n"] for _, n in r["sums"]):
+                    ctx.violation(case, "model: a count table does not sum to the number of combinations", found_input=False,
+                                  item="theorem:C17_count_sum", model=model)
+            if "min" in case["a"] and isinstance(r.get("setcache"), dict):
+                ctx.count("theorem:C17_set_cache:covered" if "ok" in r["setcache"] else "theorem:C17_set_cache_error:covered")
+            if isinstance(r.get("pandas"), dict) and "ok" in r["pandas"]:
+                ctx.count("theorem:C17_count_pandas:covered")
+        if case["m"] == "filtered" and not case["a"]["keys"]:
+            ctx.count("theorem:C17_filtered_nokeys:covered")
+            if "ok" in r and (r["ok"]["list"] != {"ok": []} or r["ok"]["len"] != {"ok": 0}):
+                ctx.violation(case, "model: filtered_sweep([]) yields combinations", found_input=False, item="theorem:C17_filtered_nokeys", model=model)
+        if case["m"] == "filtered" and r.get("err") == "TypeError":
+            ctx.count("theorem:C17_filtered_hashable:TypeError")
         if case["m"] == "product" and r.get("hyps"):
             ops = [case["a"]["s"], *case["a"]["others"]]
             names = [k for x in ops for k, _ in x["items"]]
@@ -892,6 +1081,8 @@ def check_cases(ctx, cases):
                                   found_input=False, item="theorem:C17_product_enum", model=model)
                 if fns_disjoint_local(ops):
                     ctx.count("theorem:C17_product:covered")
+                    if all(in_item_order(x) for x in ops):
+                        ctx.count("theorem:C17_product_rowmajor:covered")
                     got = r.get("ok", {}).get("list", {}).get("ok")
                     if got is None or [canon_model_combo(c) for c in got] != [canon_model_combo(c) for c in r["prodspec"]] \
                             or r["ok"]["len"] != {"ok": len(r["prodspec"])}:
@@ -904,6 +1095,8 @@ def check_cases(ctx, cases):
                               found_input=False, item="theorem:C17_filtered_derivers", model=model)
         if case["m"] == "filtered" and r.get("plain") is not None:
             ctx.count("theorem:C17_filtered_plain:covered")
+            if in_item_order(case["a"]["s"]):
+                ctx.count("theorem:C17_filtered_plain_rowmajor:covered")
             if "ok" not in r or r["ok"]["list"] != {"ok": r["plain"]} or r["ok"]["len"] != {"ok": len(r["plain"])}:
                 ctx.violation(case, "model: list of the filtered sweep differs from the distinct restrictions (branch without derivers)",
                               found_input=False, item="theorem:C17_filtered_plain", model=model)
@@ -978,7 +1171,11 @@ def exhaustive_products():
 
 
 def run(ctx):
+    REPAIRED["DF-C17-03"] = any(f.get("id") == "DF-C17-03" for f in framework.load_findings(PID))
     check_cases(ctx, [copy.deepcopy(c) for c in CORPUS])
+    check_witnesses(ctx)
+    if REPAIRED["DF-C17-03"]:
+        check_cases(ctx, [copy.deepcopy(c) for c in UNHASHABLE_PLAIN_CASES])
     if any(f.get("id") == "DF-C17-02" for f in ctx.findings):       # only once the finding is registered (else it would be a VIOLATION)
         check_cases(ctx, [copy.deepcopy(PANDAS_NONE_CASE)])
     if ctx.tier == "thorough":
@@ -1006,6 +1203,11 @@ def run(ctx):
 
 
 def replay(ctx, case):
+    if case.get("m") == "witness":
+        for name, fn, want in WITNESSES:
+            if name == case["a"]:
+                print("implementation:", attempt(fn), "| witness theorem:", want)
+        return
     o, bad, req = run_impl(case)
     print("implementation:", o, "| failed clauses:", bad)
     if req is not None:
